@@ -825,6 +825,26 @@ func generate(repo, out string) error {
 		return err
 	}
 
+	// 4ad. the bitset, isNull, compVal, subset / Subset of internal/ecolumn as terms of QF.ER (ecast.go)
+	if err := writeIfChanged(filepath.Join(out, "EnumRest.lean"), []byte(enumRestLean(ecol))); err != nil {
+		return err
+	}
+
+	// 4ae. the column constructors createColumn calls (scolumn New / NewStrings / NewConst / NewBytes, New / NewConst of icolumn, fcolumn, bcolumn) as terms of QF.CT (ctorast.go)
+	if err := writeIfChanged(filepath.Join(out, "Ctors.lean"), []byte(ctorsLean(repo, strs))); err != nil {
+		return err
+	}
+
+	// 4af. the grouping glue (QFrame.GroupBy, Grouper.QFrames, Grouper.Aggregate, the config functions of config/groupby) as terms of QF.GG (grpgast.go)
+	if err := writeIfChanged(filepath.Join(out, "GroupGlue.lean"), []byte(groupGlueLean(repo, root))); err != nil {
+		return err
+	}
+
+	// 4ag. the rest of Apply: FilteredApply, WithRowNums and the built-in ToUpper of the string and enum columns as terms of QF.FAStm / QF.SUFn / QF.EUFn (faast.go)
+	if err := writeIfChanged(filepath.Join(out, "FApply.lean"), []byte(fapplyLean(repo, root))); err != nil {
+		return err
+	}
+
 	// 4m. the three writers of qframe.go (ToJSON, ToCSV, String) as terms of QF.JS / QF.CS / QF.PS (wast.go)
 	if err := writeIfChanged(filepath.Join(out, "Writers.lean"), []byte(writersLean(repo, root, strs))); err != nil {
 		return err
